@@ -44,8 +44,8 @@ C = {
          "numpy Generator.normal and scipy lfilter are oracles whose contracts are validated each run", T_HAND),
  "C18": ("Hermitian construction of fftnoise proved as an index map for every length; section DC gain fmax/fmin, Nyquist gain 1, pole inside the unit circle and the closed-form |H|^2 proved; coefficients tied bit-exactly; power-law fit swept analytically.", "7/C18",
          "PARTIAL: 'within about 1 dB of f^-alpha' is an approximation statement, swept with a 2 dB allowance on the interior of the band", T_HAND),
- "C19": ("Trapezoid integral additive at grid points, monotone under band nesting, zero for point/empty bands; order-0 detrend orthogonal, idempotent, kills constants; integral_rms tied bit-exactly at binary64.", "7/C19",
-         "PARTIAL: detrend orders 1..5 rest on np.polyfit's least-squares contract (checked numerically); Parseval link is statistical", T_HAND),
+ "C19": ("Trapezoid integral additive at grid points, monotone under band nesting, zero for point/empty bands; order-0 detrend orthogonal, idempotent, kills constants; for every order: residual of any normal-equation solution is orthogonal to all polynomials of degree <= p, unchanged by adding such a polynomial, zero on polynomials, idempotent (LeastSquares.v); integral_rms tied bit-exactly at binary64.", "7/C19",
+         "detrend theorems for orders >= 1 hold for any solution of the normal equations (np.polyfit's contract, checked numerically each run); PARTIAL: the Parseval link between spectrum and time series is statistical (6% allowance)", T_HAND),
  "C20": ("asd^2=psd, ps=psd*ENBW, cs=csd*ENBW, cf=|Hxy|, cf_db, deg/rad, conjugates, aliases and the exact None table proved on the regenerated attribute table; interpolation, DataFrame export, copy/pickle by the direct oracle.", "7/C20",
          "interpolation / pandas export / Python copy protocol are exercised on real results, not modelled", T_GEN_A),
 }
